@@ -85,16 +85,20 @@ func fromItems(v any) (any, error) {
 		}
 	}
 
-	r := make(map[string]any, len(a))
+	// An element that is not an array is outside the function's signature, so
+	// it is reported before any malformed pair.
 	for _, i := range a {
-		ia, ok := i.([]any)
-		if !ok {
+		if _, ok := i.([]any); !ok {
 			return nil, &InvalidTypeError{
 				got:  reflect.TypeOf(i),
 				want: "array",
 			}
 		}
+	}
 
+	r := make(map[string]any, len(a))
+	for _, i := range a {
+		ia := i.([]any)
 		if len(ia) != 2 {
 			return nil, &fromItemsLengthError{
 				length: len(ia),
